@@ -109,7 +109,7 @@ theorem registration_only_by_its_blocks (p : Bool) (f : LSt → LSt) (hf : Blk p
   | dbInsert o v => simp [dbInsert] at hne
   | dbExists o i => simp [dbExists] at hne
   | dbGet o i slot => simp [dbGet] at hne
-  | dbUpdate i v _ => simp [dbUpdate] at hne
+  | dbUpdate o i v _ => simp [dbUpdate] at hne
   | dbUpdateIfPresent o i v => unfold dbUpdateIfPresent at hne; split at hne <;> simp at hne
   | dbRemoveId o i => unfold dbRemoveId at hne; split at hne <;> simp at hne
   | gcRemove o => unfold gcRemove dbRemoveVal at hne; split at hne <;> simp at hne
@@ -143,15 +143,15 @@ theorem subscriptions_conserved (threads : List (List Op)) (sched : List ThreadI
 /-- known finding C16-KF1 (check-then-act in update_provider_data, plain / reactive maintenance): IF.LDM.3 update of
 row 0 racing with IF.LDM.3 delete of row 0 – both report success and the row is back in the store … -/
 theorem multi_block_explained_witness :
-    let s := final [[.regP 1, .add 1 1 3], [.upd 2 0 4], [.del 3 0]]
+    let s := final [[.regP 1, .add 1 1 6], [.upd 2 0 4], [.del 3 0]]
       (List.replicate 9 0 ++ List.replicate 9 1 ++ List.replicate 7 2 ++ List.replicate 6 1)
-    s.resp 2 = [0] ∧ s.resp 3 = [1] ∧ s.db = [(0, 4)] ∧ s.revived = 1 := by decide +kernel
+    s.resp 2 = [0] ∧ s.resp 3 = [1] ∧ s.db = [(0, 8)] ∧ s.revived = 1 := by decide +kernel
 
 /-- … which neither sequential order of the two operations produces (update then delete: row gone; delete then update:
 update answers "unknown id") -/
 theorem multi_block_explained_witness_not_sequential :
-    let ud := final [[.regP 1, .add 1 1 3, .upd 2 0 4, .del 3 0]] (List.replicate 40 0)
-    let du := final [[.regP 1, .add 1 1 3, .del 3 0, .upd 2 0 4]] (List.replicate 40 0)
+    let ud := final [[.regP 1, .add 1 1 6, .upd 2 0 4, .del 3 0]] (List.replicate 40 0)
+    let du := final [[.regP 1, .add 1 1 6, .del 3 0, .upd 2 0 4]] (List.replicate 40 0)
     (ud.resp 2 = [0] ∧ ud.resp 3 = [1] ∧ ud.db = []) ∧ (du.resp 2 = [1] ∧ du.resp 3 = [1] ∧ du.db = []) := by
   decide +kernel
 
@@ -161,7 +161,7 @@ theorem multi_block_explained_mt (threads : List (List Op)) (h : noPlainUpd thre
     (final threads sched).revived = 0 :=
   (no_lost_or_duplicated_add threads h sched).2.1
 
-example : (final [[.regP 1, .add 1 1 3], [.updMt 2 0 4], [.del 3 0]]
+example : (final [[.regP 1, .add 1 1 6], [.updMt 2 0 4], [.del 3 0]]
     (List.replicate 9 0 ++ List.replicate 9 1 ++ List.replicate 7 2 ++ List.replicate 9 1)).db = [] := by decide +kernel
 
 /-! ## deadlock freedom, exceptions -/
